@@ -30,6 +30,9 @@ import (
 func TestMain(m *testing.M) {
 	code := m.Run()
 	vt.Flush()
+	if binPath != "" {
+		os.Remove(binPath) // the vipnode binary built for the binary-level tests of this process
+	}
 	os.Exit(code)
 }
 
